@@ -50,6 +50,7 @@ def plan(tier, seed):
     nd = 16 if tier == "quick" else 64
     shards += [("detector", c, nd, tier, mg) for c in range(nd) for mg in ((seed % 4,) if tier == "quick" else (0, 1, 2, 3))]
     shards.append(("callers", tier, seed % 4))
+    shards.append(("rotation_axis", tier))
     k = seed % len(shards)
     return shards[k:] + shards[:k]
 
@@ -276,7 +277,65 @@ def _run_callers(desc):
     return c01._run_callers(("callers", desc[1], desc[2]))
 
 
+def _run_rotation_axis(desc):
+    """gv_general.rotation_axis / k_to_g, which carry the omega rotation for ANY axis direction: laws only (no reference): the per-angle
+    route preserves length and the component along the axis, leaves the axis fixed, composes additively, is undone by the inverse
+    route, agrees with the matrix route, and k_to_g applies post, rotation, pre in that order"""
+    from ImageD11 import gv_general as gg
+    sh = Shard()
+    axes = [(0, 0, 1.0), (0, 0, -1.0), (1.0, 0, 0), (0, 1.0, 0), (1 / 3.0, 2 / 3.0, 2 / 3.0), (0, 0.28, -0.96), (-0.6, 0, 0.8), (2 / 7.0, -3 / 7.0, 6 / 7.0),
+            (0.6, 0.8, 0)]
+    angs = np.array([0.0, 7.25, 45.0, 90.0, 133.7, 180.0, -33.3, -90.0, 271.0, 359.9, -179.0, 720.5])
+    k = np.arange(14) + 0.5
+    phi = np.arccos(1 - 2 * k / 14)
+    th = np.pi * (1 + 5 ** 0.5) * k
+    vecs = np.array([np.cos(th) * np.sin(phi), np.sin(th) * np.sin(phi), np.cos(phi)]) * (0.3 + 0.1 * np.arange(14))
+    V, A = np.meshgrid(np.arange(vecs.shape[1]), np.arange(len(angs)), indexing="ij")
+    p = vecs[:, V.ravel()]
+    q = angs[A.ravel()]
+    pre = rz(12.0)
+    post = np.dot(rz(-5.0), np.array([[1, 0, 0], [0, np.cos(0.2), np.sin(0.2)], [0, -np.sin(0.2), np.cos(0.2)]]))
+    for ax in axes:
+        a = np.array(ax, float)
+        case = {"kind": "rotation_axis", "axis": list(ax)}
+        ra = gg.rotation_axis(a)
+        rp = ra.rotate_vectors(p, q)
+
+        def bad(what, detail=None):
+            sh.violation("rotation_axis:" + what, case, detail or {})
+        if np.abs(np.sqrt((rp * rp).sum(axis=0)) - np.sqrt((p * p).sum(axis=0))).max() > 1e-12: bad("length-not-preserved")
+        if np.abs(np.dot(a, rp) - np.dot(a, p)).max() > 1e-12: bad("component-along-the-axis-changes")
+        if np.abs(ra.rotate_vectors(np.outer(a, np.ones(len(angs))), angs) - a[:, None]).max() > 1e-12: bad("axis-not-fixed")
+        if np.abs(ra.rotate_vectors_inverse(rp, q) - p).max() > 1e-12: bad("inverse-route-does-not-undo")
+        if np.abs(ra.rotate_vectors(rp, np.full(len(q), 25.0)) - ra.rotate_vectors(p, q + 25.0)).max() > 1e-12: bad("angles-do-not-add")
+        # handedness: a quarter turn about the axis takes e to a x e for e perpendicular to the axis
+        e = np.cross(a, (1.0, 0.3, -0.2)); e /= np.linalg.norm(e)
+        if np.abs(ra.rotate_vectors(e[:, None], np.array([90.0]))[:, 0] - np.cross(a, e)).max() > 1e-12: bad("not-right-handed-about-the-axis")
+        for ang in angs:
+            rm = gg.rotation_axis(a, ang)
+            sel = q == ang
+            if np.abs(rm.rotate_vectors(p[:, sel]) - rp[:, sel]).max() > 1e-12 or np.abs(np.dot(rm.to_matrix(), p[:, sel]) - rp[:, sel]).max() > 1e-12:
+                bad("matrix-route-differs-from-per-angle-route", {"angle": float(ang)}); break
+            if np.abs(rm.rotate_vectors_inverse(rp[:, sel]) - p[:, sel]).max() > 1e-12:
+                bad("matrix-inverse-route", {"angle": float(ang)}); break
+            if abs(np.sin(np.radians(ang))) > 0.1:          # the axis of a 0 or 180 degree rotation cannot be read off the antisymmetric part
+                back = gg.axis_from_matrix(rm.to_matrix())
+                if np.abs(back.to_matrix() - rm.to_matrix()).max() > 1e-9:
+                    bad("axis_from_matrix-does-not-reproduce-the-rotation", {"angle": float(ang)}); break
+        g1 = gg.k_to_g(p, q, axis=a)
+        if np.abs(g1 - rp).max() > 1e-12: bad("k_to_g-differs-from-rotate_vectors")
+        g2 = gg.k_to_g(p, q, axis=a, pre=pre, post=post)
+        if np.abs(g2 - np.dot(pre, ra.rotate_vectors(np.dot(post, p), q))).max() > 1e-12: bad("k_to_g-pre-post-order")
+        sh.evaluations += p.shape[1]
+        sh.nontrivial += p.shape[1] if abs(a[2]) < 1 else 0
+        sh.outcomes.add(("axis", tuple(ax)))
+    sh.sample(case, limit=1)
+    return sh
+
+
 def run_shard(desc):
+    if desc[0] == "rotation_axis":
+        return _run_rotation_axis(desc)
     if desc[0] == "callers":
         return _run_callers(desc)
     return {"laws": _run_laws, "invalid": _run_invalid, "detector": _run_detector}[desc[0]](desc)
@@ -286,6 +345,10 @@ def replay(case):
     if case["kind"] == "callers":
         r = _run_callers(("callers", "thorough", case["mag"]))
         return (not r.violations), {"violations": r.violations[:3]}
+    if case["kind"] == "rotation_axis":
+        r = _run_rotation_axis(("rotation_axis", "quick"))
+        v = [x for x in r.violations if x["case"]["axis"] == case["axis"]]
+        return (not v), {"violations": v[:3]}
     if case["kind"] in ("laws", "invalid"):
         tier = case.get("tier", "quick")
         wi = WVLN.index(case["wavelength"]); wci = grids(tier)[3].index((case["wedge"], case["chi"]))
